@@ -133,7 +133,8 @@ def alias_rebind(r, p, steps):
         return False
     x = r.choice(aliased)
     cur = dict((a[0], a[1]) for a in p.get("aliases", [])).get("alias_" + x, x)
-    cands = [y for y in mems if y != cur and not reaches(p, y, "m1")]
+    users = [n["name"] for n in p["nodes"] if "refs" in n and any(q["form"] == "alias" and q["to"] == x for q in n["refs"])]
+    cands = [y for y in mems if y != cur and not reaches(p, y, "m1") and not any(reaches(p, y, u) for u in users)]
     if not cands:
         return False
     y = r.choice(cands)
@@ -162,6 +163,50 @@ def reaches(p, src, dst):
                     t = amap.get("alias_" + t, t)
                 todo.append(t)
             todo += nd.get("hidden", [])
+    return False
+
+
+def history_alias(r, prop):
+    """Directed: a dependant's version is queried (cached), then the alias it calls through is rebound to
+    another memento function that already exists -- no definition is executed, nothing else changes --
+    and the dependant is queried / called again.  (Version.tla: KF_AliasBlind counterexample shape.)"""
+    for _ in range(50):
+        p0 = vprogs.random_prog(r, nmem=r.choice([3, 4]), nplain=1, nvar=1, hidden_p=0.0, forms=("alias", "alias", "bare"))
+        p = copy.deepcopy(p0)
+        steps = [{"do": "proc", "hashseed": "0"}]
+        steps.append({"do": "call", "name": "m1"} if prop == "C01" else {"do": "query", "name": "m1", "truth": True})
+        if r.random() < 0.5:         # warm the other functions' cached versions too
+            for n in p["nodes"]:
+                if n["kind"] == "mem" and n["name"] != "m1":
+                    steps.append({"do": "query", "name": n["name"]})
+        if not reaches_alias(p, "m1"):
+            continue
+        if not alias_rebind(r, p, steps):
+            continue
+        if prop == "C01":
+            steps.append({"do": "call", "name": "m1"})
+        else:
+            steps.append({"do": "query", "name": "m1", "truth": True})
+            if r.random() < 0.5 and alias_rebind(r, p, steps):
+                steps.append({"do": "query", "name": "m1", "truth": True})
+        return {"prog": p0, "steps": steps}
+    return GEN[prop](r, True)
+
+
+def reaches_alias(p, src):
+    """does src (transitively) call through an alias name?"""
+    seen, todo = set(), [src]
+    while todo:
+        n = todo.pop()
+        if n in seen:
+            continue
+        seen.add(n)
+        nd = vprogs.node(p, n)
+        if nd and "refs" in nd:
+            for q in nd["refs"]:
+                if q["form"] == "alias":
+                    return True
+                todo.append(q["to"])
     return False
 
 
@@ -208,7 +253,7 @@ def run(prop, tier):
             from . import check_closure
             return check_closure.run_body(rep, r, wd, quick)
         n = NJOBS[prop][0 if quick else 1]
-        jobs = [GEN[prop](r, quick) for _ in range(n)]
+        jobs = [history_alias(r, prop) if prop in ("C01", "C13") and i % 6 == 5 else GEN[prop](r, quick) for i in range(n)]
         traces = common.run_jobs("ver_worker.py", jobs, wd, timeout=3000)
         common.tick("executed %d histories" % len(traces))
         payload = [{"cfg": {"prop": prop}, "ev": merge_truth(t["ev"])} for t in traces]
